@@ -7,9 +7,6 @@ VARIABLES l, done
 vars == <<l, done>>
 Has(r, f) == f \in DOMAIN r
 
-\* names of the table that an implementation need not register (the library does not): either an
-\* error or the right header is accepted for them; every other name of the table must resolve.
-Optional == {"NXM_NX_DP_HASH", "NXM_NX_RECIRC_ID", "OXM_OF_PBB_UCA", "OXM_OF_TCP_FLAGS", "OXM_OF_ACTSET_OUTPUT"}
 Matches(name, m, r) ==
        /\ r.class = ClassOf(name) /\ r.field = FieldOf(name) /\ r.hasmask = (m = 1)
        /\ (WidthOf(name) = 0 \/ r.length = WidthOf(name) * (1 + m))
